@@ -699,6 +699,22 @@ pub fn user_props_dig(u: &UserProperties) -> String {
         let got: Vec<&str> = u.get(k).collect();
         consistent &= same_key == got;
     }
+    // keys that were NOT sent: fragments of the keys that were, the empty string, a key with a tail
+    let mut probes: Vec<String> = vec![String::new(), "\u{0}".into()];
+    for k in &keys {
+        let cs: Vec<char> = k.chars().collect();
+        if cs.len() > 1 {
+            probes.push(cs[..cs.len() - 1].iter().collect());
+            probes.push(cs[1..].iter().collect());
+        }
+        probes.push(format!("{}x", k));
+        probes.push(k.to_uppercase());
+    }
+    for pr in probes {
+        let present = keys.iter().any(|k| *k == pr.as_str());
+        consistent &= u.contains_key(&pr) == present;
+        consistent &= (u.get(&pr).count() > 0) == present;
+    }
     s.push(']');
     if !consistent {
         s.push_str("!INCONSISTENT-ACCESSORS");
